@@ -1,6 +1,7 @@
 package rules
 
 import (
+	"fmt"
 	"go/ast"
 	"go/token"
 	"go/types"
@@ -528,6 +529,137 @@ func c20(c *Ctx) {
 			}
 			return true
 		})
+	}
+
+	// ---------- Q3b: whole guarded maps/slices must not leave the critical section inside a returned structure
+	for _, fi := range fns {
+		if fi.Obj == nil || fi.FuncType().Results == nil {
+			continue
+		}
+		info := fi.Info()
+		// does the function take any lock itself?
+		takes := false
+		for _, call := range astx.Calls(fi.Body(), false) {
+			if op := lockOpOf(info, call); op != nil && (op.op == "Lock" || op.op == "RLock") {
+				takes = true
+			}
+		}
+		if !takes {
+			continue
+		}
+		// carriers: locals that hold (transitively) a whole guarded reference value
+		carriers := map[types.Object]string{}
+		wholeGuardedRef := func(e ast.Expr) string {
+			se, ok := ast.Unparen(e).(*ast.SelectorExpr)
+			if !ok {
+				return ""
+			}
+			// any selector chain that passes through a guarded field and has map/slice type
+			tv, ok := info.Types[se]
+			if !ok {
+				return ""
+			}
+			switch tv.Type.Underlying().(type) {
+			case *types.Map, *types.Slice:
+			default:
+				return ""
+			}
+			for _, fl := range lhsChainFields(info, se) {
+				if _, g := guard[fl]; g {
+					return astx.Str(se)
+				}
+			}
+			return ""
+		}
+		for changed := true; changed; {
+			changed = false
+			ast.Inspect(fi.Body(), func(n ast.Node) bool {
+				as, ok := n.(*ast.AssignStmt)
+				if !ok {
+					return true
+				}
+				for i, l := range as.Lhs {
+					id, ok := l.(*ast.Ident)
+					if !ok || len(as.Rhs) != len(as.Lhs) {
+						continue
+					}
+					o := astx.Obj(info, id)
+					if o == nil || carriers[o] != "" {
+						continue
+					}
+					what := ""
+					ast.Inspect(as.Rhs[i], func(m ast.Node) bool {
+						switch x := m.(type) {
+						case *ast.CallExpr:
+							// values passed through calls (make, append of copies, conversions, String()) are copies / encodings
+							if astx.Builtin(info, x) == "append" {
+								return true
+							}
+							return false
+						case *ast.KeyValueExpr:
+							if w := wholeGuardedRef(x.Value); w != "" {
+								what = w
+							}
+							if vid, ok := ast.Unparen(x.Value).(*ast.Ident); ok {
+								if c2 := carriers[astx.Obj(info, vid)]; c2 != "" {
+									what = c2
+								}
+							}
+						case *ast.Ident:
+							if c2 := carriers[astx.Obj(info, x)]; c2 != "" && m != ast.Node(id) {
+								what = c2
+							}
+						}
+						return true
+					})
+					if w := wholeGuardedRef(as.Rhs[i]); w != "" {
+						what = w
+					}
+					if what != "" {
+						carriers[o] = what
+						changed = true
+					}
+				}
+				return true
+			})
+		}
+		if len(carriers) == 0 {
+			continue
+		}
+		escaped := false
+		ast.Inspect(fi.Body(), func(n ast.Node) bool {
+			rs, ok := n.(*ast.ReturnStmt)
+			if !ok {
+				return true
+			}
+			for _, res := range rs.Results {
+				what := ""
+				ast.Inspect(res, func(m ast.Node) bool {
+					switch x := m.(type) {
+					case *ast.CallExpr:
+						return false // encodings and copies
+					case *ast.Ident:
+						if c2 := carriers[astx.Obj(info, x)]; c2 != "" {
+							what = c2
+						}
+					case *ast.SelectorExpr:
+						if w := wholeGuardedRef(x); w != "" {
+							what = w
+						}
+					}
+					return true
+				})
+				if what != "" {
+					escaped = true
+					r.Fail("C20.Q3", fi.Name(), "returns a structure that aliases "+what, c.P.Pos(rs.Pos()),
+						"the returned value still points at the live "+what+" (guarded by "+"its mutex), and the lock is released when the function returns: the caller reads the map without the lock while the state machine writes it")
+				}
+			}
+			return true
+		})
+		if !escaped {
+			r.Ok("C20.Q3", fi.Name(), "aliases of guarded maps stay inside the critical section", c.P.Pos(fi.Node().Pos()), fmt.Sprintf("%d local(s) alias guarded maps/slices; none is returned", len(carriers)))
+		}
 	}
 
 	// ---------- Q4 lock order (observation)
